@@ -15,9 +15,27 @@ def gen_faulted(rng):
     return [scen.with_fault(rng, base, tin, tout) for _ in range(3)]
 
 
+def tcp_reset(ctx):
+    """real sockets: the peer aborts the connection (RST); close() must still complete and connect() must work again (both transports)"""
+    from units import c18
+    for kind in ("sync", "async"):
+        f = c18.check_reset(ctx, kind)
+        if f:
+            ctx.report.prop_failures.append(dict(f, no_shrink=True, replay_with="c18"))
+
+
+def _replay_c18(ctx, fl):
+    from units import c18
+    return c18.replay(ctx, dict(failure=fl))
+
+
+from units import mk as _mk
+_mk.REPLAYERS["c18"] = _replay_c18
+
+
 Unit([("fault", gen_faulted, 1)],
      (oracles.o_locks, oracles.o_c12_after_reconnect, oracles.o_c01, oracles.o_c07, oracles.o_c08, oracles.o_c09, oracles.o_c13, oracles.o_c14, oracles.o_c02),
      "a session touching every operation is first run healthy to learn its stream lengths; then a fault (transport timeout, connection reset, end-of-stream) "
      "is placed at a random inbound or outbound offset; afterwards close(), connect() to a healthy device and the same operations again. Checked on the "
      "implementation: no lock held after any call, every normally-returning call (before and after the fault) has the exact result, close/reconnect succeed. "
-     "Non-trivial/distinct as for C01.", 50, 1500).export(globals())
+     "Non-trivial/distinct as for C01.", 50, 1500, extra_run=tcp_reset).export(globals())
